@@ -19,6 +19,7 @@ CFG = dict(
          "without loss; after a loss: reported, re-aligned, never backwards) and the Lean model must reproduce every block. Non-trivial = the case "
          "delivered at least one block; distinct by input line.",
     nontrivial=["blocks"],
+    lean_files=["C04", "ComposeLancero"],
     jobs=seeds(1, 4),
     trusted_base=["the mixer's float arithmetic is IEEE double without fused multiply-add on both sides (Lean Float vs Go on amd64); theorems hold for every float implementation (abstract FloatOps)",
                   "the dropped-frame estimate is wall-clock based in the code; cases use a 1000 Hz frame rate and millisecond time stamps so that it equals the integer difference of the scripted times",
@@ -46,7 +47,10 @@ MANIFEST = dict(
          "estimate, the estimate reported, never backwards for non-negative estimates, contiguous without loss; (7) C04_realign_partial / C04_realign_all_chunkings: a read "
          "that starts inside a frame is flagged, released up to the next frame boundary and delivers whole frames, and for every schedule of reads the "
          "first buffer after such a start is flagged and all buffers are whole frames in order; the full re-alignment statement "
-         "is shown false of the code by C04_realign_counterexample (known finding: loss in the middle of a read). The model is compared block for "
+         "is shown false of the code by C04_realign_counterexample (known finding: loss in the middle of a read); (8) C04_blocks_shape: every block "
+         "of every history has one slice per channel, all of the announced length; (9) Compose.lancero_blocks_never_crash (composition with the "
+         "pipeline model of C01): for every geometry, every list of well-formed frames and every read schedule the emitted blocks, with arbitrary "
+         "control requests woven in, are processed by the prepared source without a panic (card bytes -> records). The model is compared block for "
          "block with the real launchLanceroReader/getNextBlock/distributeData (scripted in-memory card; direct buffer histories) on every run and "
          "the real output is judged by the closed-form oracle.",
     note="Trusted: Lean 4.33 kernel (axioms propext, Classical.choice, Quot.sound only; audited every run); the hand-written model is tied "
@@ -73,4 +77,6 @@ THEOREMS = [
     ("DastardV.Props.C04", "DastardV.C04.C04_realign_partial"),
     ("DastardV.Props.C04", "DastardV.C04.C04_realign_all_chunkings"),
     ("DastardV.Props.C04", "DastardV.C04.C04_realign_counterexample"),
+    ("DastardV.Props.C04", "DastardV.C04.C04_blocks_shape"),
+    ("DastardV.Lemmas.ComposeLancero", "DastardV.Compose.lancero_blocks_never_crash"),
 ]
